@@ -2634,6 +2634,11 @@ type tupleExpr struct {
 	closing  token.Pos
 }
 
+// Pos and End make a tuple usable where an expression is expected by mistake (`go ()`, `defer ()`):
+// the embedded ast.Expr is nil.
+func (t *tupleExpr) Pos() token.Pos { return t.opening }
+func (t *tupleExpr) End() token.Pos { return t.closing + 1 }
+
 func (p *parser) parseLambdaExpr(allowTuple, allowCmd, allowRangeExpr bool) (x ast.Expr, isTuple bool) {
 	var first = p.pos
 	if p.tok != token.DRARROW {
